@@ -70,9 +70,11 @@ static int d16(void) { cJSON *o = cJSON_Parse("{\"o\":{\"b\":1,\"a\":2}}");
     return !(st == 0 && strstr(s, "\"c\":3")); }
 static int d17(void) { cJSON *a = cJSON_Parse("[1,2]"); int ok = cJSON_InsertItemInArray(a, 0, a); printf("%d\n", ok); return ok != 0; }
 
+static int d18(void) { cJSON *a = cJSON_Parse("[1,2]"); cJSON *r = cJSONUtils_GetPointerCaseSensitive(a, "/"); printf("%p\n", (void*)r); return r != NULL; }
+
 int main(int argc, char **argv) {
     int n = argc > 1 ? atoi(argv[1]) : 0;
-    int (*t[])(void) = { 0, d1, d2, d3, d4, d5, d6, d7, d8, d9, d10, d11, d12, d13, d14, d15, d16, d17 };
-    if (n < 1 || n > 17) return 2;
+    int (*t[])(void) = { 0, d1, d2, d3, d4, d5, d6, d7, d8, d9, d10, d11, d12, d13, d14, d15, d16, d17, d18 };
+    if (n < 1 || n > 18) return 2;
     return t[n]();
 }
